@@ -52,6 +52,26 @@ for _w in WAVELENGTHS:
     CALCS[("atom_scattering_wl", (64, 157, 0, _w))] = [((64, 157, 0), "neutron")]
 WL_CALCS = [c for c in CALCS if c[0].endswith("_wl")]
 
+# calculator calls and computed reads outside the model's alphabet (event "ocalc"), by family of lazily loaded
+# data: what each of them returns does not depend on which member of the family (or which attribute read) was the
+# first touch of the process.  Judged by the oracle only, against a pristine process that does nothing else.
+ORDER_CALCS = {
+    # the per-atom x-ray tables: the neutron pseudo-element (no table), nitrogen (n.nff) through an element, an
+    # ion, an isotope and an isotope ion, and through the compound calculator
+    "xray": [("xray_table", (0, 0, 0)), ("xray_table", (0, 1, 0)), ("xray_table", (7, 0, 0)), ("xray_table", (7, 0, 3)),
+             ("xray_table", (7, 15, 0)), ("xray_table", (7, 15, -3)), ("xray_sld", "N2"), ("xray_sld", "NaCl"),
+             ("xray_table", (11, 0, 1)), ("atom_xray_sld", (7, 14, 0))],
+    # the activation calculator on explicit isotopes, ions of isotopes and natural elements
+    "activation": [("activation", "Co[59]"), ("activation", "D2O"), ("activation", "Co[59]{2+}"), ("activation", "Co"),
+                   ("activation", "Co30Fe70"), ("activation_iaea", "Co[59]"), ("activation", "H[2]"),
+                   ("activation", "Au[197]Co")],
+    # f0 of the Waasmaier-Kirfel table: the bare proton / deuteron, other ions, atoms, isotopes
+    "f0": [("atom_f0", (1, 0, 1)), ("atom_f0", (1, 2, 1)), ("f0q", ("H", 1)), ("atom_f0", (1, 0, -1)),
+           ("atom_f0", (1, 0, 0)), ("atom_f0", (28, 0, 0)), ("atom_f0", (28, 58, 2)), ("f0q", ("Ni", 2)), ("f0", "O"),
+           ("atom_f0", (0, 0, 0)), ("f0q", ("Ca", None))],
+}
+ORDER_ATTR = {"xray": "xray", "activation": "neutron_activation", "f0": "xray"}
+
 # served values that are objects, and the module their class lives in (unpickling imports it)
 PICKLE_ATTRS = {"xray": "xsf", "neutron": "nsf", "magnetic_ff": "magnetic_ff", "neutron_activation": "activation",
                 "crystal_structure": None}
@@ -134,6 +154,12 @@ class Lab:
         # (a calculator with a wavelength argument: its canonical value is that of a process that asks for
         #  nothing else)
         alone = self.pool.map([[("calc", c[0], list(c[1]))] for c in WL_CALCS])
+        ocs = [c for fam in ORDER_CALCS.values() for c in fam]
+        self.canon_ocalc = {}
+        for c, r in zip(ocs, self.pool.map([[ocalc_event(c)] for c in ocs])):
+            if isinstance(r, dict):
+                raise InfraError("canonical child crashed: %s" % str(r)[-400:])
+            self.canon_ocalc[c] = list(r[0])
         res = self.pool.map([h])[0]
         if isinstance(res, dict):
             raise InfraError("canonical child crashed: %s" % res.get("crash", res)[-400:])
@@ -239,7 +265,7 @@ class Lab:
         if k == "loads":       # unpickling imports the module of the value's class; nothing else is touched
             m = PICKLE_ATTRS.get(ev[3])
             return [("import %d" % self.cfg["modules"].index(m), ("import", None, None))] if m in self.cfg["modules"] else []
-        if k in ("newtable", "formula", "pickle", "ids"):
+        if k in ("newtable", "formula", "pickle", "ids", "ocalc"):
             return []      # no counterpart in the lazy model (judged by the oracle only)
         raise InfraError("no model line for %r" % (ev,))
 
@@ -444,7 +470,19 @@ def oracle(lab: Lab, hist, outs):
             if out != want:
                 bad.append((i, "%s(%r) returns %s, in the canonical order %s" % (ev[1], ev[2], show(out), show(want)),
                             dict(kind="calc-differs", calc=ev[1])))
+        elif k == "ocalc":
+            arg = tuple(ev[2]) if isinstance(ev[2], list) else ev[2]
+            want = lab.canon_ocalc[(ev[1], arg)]
+            if list(out) != want:
+                bad.append((i, "%s(%r) %s; a pristine process that does nothing else %s" % (
+                    ev[1], ev[2], "raises " + str(out[1]) if out[0] == "exc" else "returns " + show(out),
+                    "raises " + str(want[1]) if want[0] == "exc" else "returns " + show(want)),
+                    dict(kind="calc-differs-by-order", calc=ev[1], got=out[0] if out[0] != "val" else "value")))
     return bad
+
+
+def ocalc_event(c):
+    return ("ocalc", c[0], list(c[1]) if isinstance(c[1], tuple) else c[1])
 
 
 def show(o):
@@ -458,7 +496,7 @@ def compare(lab: Lab, hist, outs, replies):
     for i, (ev, out, reps) in enumerate(zip(hist, outs, replies)):
         ml = lab.model_lines(ev, out)
         k = ev[0]
-        if k in ("newtable", "formula", "pickle", "ids"):
+        if k in ("newtable", "formula", "pickle", "ids", "ocalc"):
             continue
         if k == "loads":
             if ml and reps[0] != "done":
